@@ -849,11 +849,20 @@ func revocationFinalResult(certResults []*revocationresult.CertRevocationResult,
 	for i := len(certResults) - 1; i >= 0; i-- {
 		cert := certChain[i]
 		certResult := certResults[i]
+		if certResult == nil {
+			// fail closed: a certificate without a result has an unknown status
+			finalResult = revocationresult.ResultUnknown
+			problematicCertSubject = cert.Subject.String()
+			continue
+		}
 		if certResult.RevocationMethod == revocationresult.RevocationMethodOCSPFallbackCRL {
 			// log the fallback warning
 			logger.Warnf("OCSP check failed with unknown error and fallback to CRL check for certificate #%d in chain with subject %q", (i + 1), cert.Subject)
 		}
 		for _, serverResult := range certResult.ServerResults {
+			if serverResult == nil {
+				continue
+			}
 			if serverResult.Error != nil {
 				// log individual server errors
 				if certResult.RevocationMethod == revocationresult.RevocationMethodOCSPFallbackCRL && serverResult.RevocationMethod == revocationresult.RevocationMethodOCSP {
